@@ -88,7 +88,14 @@ def gen_source(rng):
                                    '--[==[ not multi ]==]', '--', '-- [[ x',
                                    '--[ [x']) + '\n')
         elif r < 0.94:
-            out.append('::' + rng.choice(['l1', 'top', '_x']) + '::')
+            nm = rng.choice(['l1', 'top', '_x'])
+            if rng.random() < 0.35:
+                # the parts of a label spread over lines
+                def gap():
+                    return rng.choice(['\n', ' ', ' \n ', '\n\n', '\t',
+                                       '\r\n', '\n'])
+                nm = gap() + nm + gap()
+            out.append('::' + nm + '::')
         else:
             out.append(rng.choice(['?', '?"hi"', 'if (x) y=1', 'a.b:c()']))
         out.append(rng.choice([' ', ' ', '  ', '\t', '\n', '\n', '\n\n',
@@ -255,7 +262,7 @@ def generate(rng, prop, tier, index):
                                           'ascii', 'replace')),
                 'routes': ['p8file', 'p8include', 'p8include2',
                            'p8include-tab-then-all', 'p8include-after-failed',
-                           'cli-listtokens']}
+                           'p8include-carts-two-dirs', 'cli-listtokens']}
     if index % 25 == 7:
         sc['src'] = {'$corpus': index // 25}
     elif index % 10 == 3:
@@ -346,6 +353,18 @@ def execute_file(sc):
         for route in sc.get('routes', []):
             if route == 'p8file':
                 got = load('a/code.p8')
+            elif route == 'p8include-carts-two-dirs':
+                # two projects in the PICO-8 carts folder, each with a
+                # lib.lua of its own; the other one is loaded first
+                cd = 'home/.lexaloffle/pico-8/carts/'
+                inc = refcodec.encode_p8(refcodec.make_cart(
+                    version=33, code=b'#include lib.lua\n'))
+                w.put(cd + 'one/main.p8', inc)
+                w.put(cd + 'one/lib.lua', b'other_project_lib=1\n')
+                w.put(cd + 'two/main.p8', inc)
+                w.put(cd + 'two/lib.lua', src)
+                load(cd + 'one/main.p8')
+                got = load(cd + 'two/main.p8')
             elif route in ('p8include-tab-then-all', 'p8include-after-failed'):
                 try:
                     from pico8.lua import lua as _lua
